@@ -8,6 +8,8 @@
   R4  no stdout write (std::io::_print) is reachable from App::dispatch: a failure can never be
       preceded by a partial table.
   R5  no `panic = "abort"` profile in the workspace manifests (would void R2).
+  R7  load_link / load_sinv_knot consult the `mirror` flag on every path that returns Ok (PD code, name, file):
+      no input kind silently ignores -m.
   R6  dispatch table of kh / ckh: every `App::<T>::run` call is reached under discriminant
       constraints (c_type, poly vars) with T = wrap(vars, ring(c_type)), ring = {Z: Int, Q: Ratio<Int>,
       F2: FF<2>, F3: FF<3>}, wrap = {None: R, H: Poly<'H',R>, T: Poly<'T',R>, HT: Poly2<'H','T',R>},
@@ -243,6 +245,31 @@ def run(facts, rep, int_ty='i64', repo='/repo'):
         rep.violation('E10.R5-unwind-profile', 'manifests|panic=abort', 'panic = "abort" in %s: catch_unwind cannot turn failures into error results' % bad, where=bad[0])
     else:
         rep.ok('E10.R5-unwind-profile', 'manifests|panic=abort', '%d manifests, none sets panic = "abort"' % n)
+    # R7: the mirror flag reaches every successful way of loading the input
+    for fn in ('load_link', 'load_sinv_knot'):
+        bs = [b for k, b in facts.bodies.items() if k == 'ykh::app::utils::helper::' + fn]
+        if len(bs) != 1:
+            rep.indet('E10.R7: helper::%s not found' % fn)
+            continue
+        b = bs[0]
+        rep.saw(b)
+        nok = 0
+        bad = None
+        for p in SymEx(b, max_paths=20000).run():
+            if p.end != 'return' or not (p.ret is not None and p.ret[0] == 'adt' and p.ret[2] == 'Ok'):
+                continue
+            nok += 1
+            if not any(e.term == ('arg', 2) for e in p.branches()):
+                bad = bad or [sk(e.term)[:50] for e in p.branches()][:4]
+        inst = 'helper::%s|every Ok path consults `mirror`' % fn
+        if nok == 0:
+            rep.indet('E10.R7: no Ok return path recognised in %s' % fn)
+        elif bad is not None:
+            rep.violation('E10.R7-flag-reaches-all-inputs', inst,
+                          '%s returns Ok on a path (%s) that never looks at the `mirror` flag: for that kind of input `-m` is silently ignored and the table of the un-mirrored link is printed' % (fn, bad),
+                          where=b.where())
+        else:
+            rep.ok('E10.R7-flag-reaches-all-inputs', inst, '%d Ok path(s), each branches on the flag' % nok)
     # R6
     for cmd in ('kh', 'ckh'):
         check_dispatch_table(facts, rep, cmd, int_ty)
